@@ -571,7 +571,10 @@ def r5_consumers(repo: Repo, rep):
         box = [e.value for e in p.events if e.kind == "eval" and e.value is not None and dump(e.value) == "domain.bounding_box()"]
         rep.check(R, bool(box), init.site(), init.fq, "the box of the layer's own domain is used", "domain.bounding_box() not evaluated", "box source")
         rng = [dump(it) for k, it in p.loopvars.items()]
-        rep.check(R, any(r.replace(" ", "") in ("range(domain.dim)", "range(domain.space.dim)") for r in rng), init.site(), init.fq, "one scale/shift per axis of the domain", str(rng), str(rng))
+        per_axis = ("range(domain.space.dim)", "range(self.input_space.dim)", "range(len(domain.bounding_box()[::2]))", "range(len(domain.bounding_box()[1::2]))", "range(len(domain.bounding_box())//2)",
+                    "range(domain.bounding_box().shape[0]//2)", "range(len(domain.space))")
+        rep.check(R, any(r.replace(" ", "") in per_axis for r in rng), init.site(), init.fq, "one scale / shift per axis of the box, i.e. per dimension of the domain's SPACE (a boundary domain has domain.dim = space.dim - 1)",
+                  str(rng), str(rng))
     lhs = repo.cls("problem.samplers.random_samplers.LHSSampler")
     fi = lhs.methods.get("_create_lhs_in_bounding_box")
     if fi is None:
@@ -813,6 +816,7 @@ _M = "src/torchphysics/models/model.py"
 _RS = "src/torchphysics/problem/samplers/random_samplers.py"
 _IV = "src/torchphysics/problem/domains/domain1D/interval.py"
 MUTANTS = [
+    dict(id="C18-M60", file=_M, old="        for i in range(domain.space.dim):  # one entry per axis of the box", new="        for i in range(domain.dim):", rule="R-C18-5", what="one axis short for boundary domains (the repaired defect)"),
     dict(id="C18-M1", file=_CI, old="            i_min = torch.min(center[:, i] - radius)\n            i_max = torch.max(center[:, i] + radius)\n            bounds.append(i_min.item())\n            bounds.append(i_max.item())",
          new="            i_min = torch.min(center[:, i] - radius)\n            i_max = torch.max(center[:, i] + radius)\n            bounds.append(i_max.item())\n            bounds.append(i_min.item())", rule="R-C18-1", what="min/max swapped per axis"),
     dict(id="C18-M2", file=_PA, old="            for corner in [origin, corner_1, corner_2, corner_3]:", new="            for corner in [origin, corner_1, corner_2]:", rule="R-C18-2", what="fourth corner dropped"),
